@@ -26,7 +26,7 @@ import itertools
 from checks import c17_rfc
 from harness import core, rng, runner, tree
 
-PROP_MODULES = ["AQ.Props.C17", "AQ.Props.C17tls", "AQ.Props.C17frames"]
+PROP_MODULES = ["AQ.Props.C17", "AQ.Props.C17tls", "AQ.Props.C17frames", "AQ.Props.C17hdr"]
 P62 = 1 << 62
 P64 = 1 << 64
 V1 = 1
@@ -521,6 +521,21 @@ def header_fuzz_cases(impl, r, n, thorough):
     for s in seeds:     # every truncation of every seed
         for k in range(len(s) + 1):
             yield [f"codec.header {hx(s[:k])} {r.choice(['none', 8])}"]
+    # every value of the bits the RFC leaves to the sender: the 4 type-specific bits of a long header (reserved
+    # bits, packet-number length 1-4 before protection / Retry's unused bits), the 7 unused bits of Version
+    # Negotiation, the 6 low bits of a short header (spin, reserved, key phase, packet-number length)
+    for s in seeds:
+        if s[0] & 0x80 and s[1:5] == bytes(4):
+            lows = range(128)
+            base = 0x80
+        elif s[0] & 0x80:
+            lows = range(16)
+            base = s[0] & 0xF0
+        else:
+            lows = range(64)
+            base = 0x40
+        for low in lows:
+            yield [f"codec.header {(bytes([base | low]) + s[1:]).hex()} {r.choice(['none', 8])}"]
     # length fields that lie: DCID length, SCID length, token length, payload Length, each +-1/+-2 and
     # at the 20/21 boundary, in every long-header seed (the rest of the bytes unchanged)
     for s in seeds[:-1]:
@@ -766,6 +781,11 @@ def _replay_codec(path):
     import json
     from checks import c17_frames
     name = (json.load(open(path)).get("signature") or {}).get("oracle", "")
+    if name == "tls-ext-bodies":
+        from checks import c17_tlsext
+        from harness.impl_tlsext import TlsExtImpl
+        timpl = TlsExtImpl()
+        return runner.replay_ops(path, lambda: timpl, c17_tlsext.ORACLES)
     if name in c17_frames.ORACLES or name.startswith("frames-") or name == "retry-token":
         from harness.impl_frames import FrameImpl
         fimpl = FrameImpl()
@@ -877,6 +897,9 @@ def main(tier):
     # every QUIC frame + Retry token plaintext: model vs real writers (sim payloads) vs harness/frames.py
     from checks import c17_frames
     c17_frames.run(ctx, tier)
+    # typed TLS extension bodies: model encoders/decoders vs the real tls.py helpers
+    from checks import c17_tlsext
+    c17_tlsext.run(ctx, tier)
     return ctx.finish()
 
 
